@@ -41,11 +41,13 @@ k-is-pattern $a #Pattern \\\\k $.
 '''
 
 
-def db_text(var_order, stmt, proof):
+def db_text(var_order, stmt, proof, earlier=None):
     vs = sorted(var_order)
     floats = '\n'.join('%s-is-pattern $f #Pattern %s $.' % (v, v) for v in var_order)
     hdr = (HEADER % {'vars': ' '.join(vs) if vs else 'zz', 'floats': floats}).replace('\\\\', '\\')
-    return hdr + 'goal $p |- %s $= %s $.\n' % (stmt, proof)
+    # an earlier provable statement over the same variables with its own label list: every compressed proof has its own table
+    pre = ''.join('pre%d $p |- %s $= ( %s ) %s $.\n' % (i, stmt, ' '.join(ls), body) for i, (ls, body) in enumerate(earlier or []))
+    return hdr + pre + 'goal $p |- %s $= %s $.\n' % (stmt, proof)
 
 
 def decode_with_repo(text):
@@ -146,7 +148,11 @@ def cases(draw):
         if ccut > prev:
             pieces.append(text[prev:ccut]); prev = ccut
     proof = '(' + draw(WS) + ''.join(l + draw(WS) for l in labels) + ')' + draw(WS) + ''.join(pc + draw(WS) for pc in pieces)
-    return {'part': 'labels', 'order': order, 'used': used, 'stmt': stmt, 'labels': labels, 'plain': plain, 'proof': proof,
+    earlier = []
+    for _ in range(draw(st.sampled_from([0, 0, 1, 2]))):
+        ls = draw(st.lists(LABEL.filter(lambda l: not l.endswith('-is-pattern')), max_size=5, unique=True))
+        earlier.append([ls, ''.join(refmm.encode_num(draw(st.integers(1, max(1, m + len(ls))))) for _ in range(draw(st.integers(1, 4))))])
+    return {'part': 'labels', 'order': order, 'used': used, 'stmt': stmt, 'labels': labels, 'plain': plain, 'proof': proof, 'earlier': earlier,
             'hashseeds': draw(st.lists(st.integers(0, 4000), min_size=0, max_size=0))}
 
 
@@ -158,7 +164,7 @@ def expected_of(c):
 
 
 def body(c, stats: Stats):
-    text = db_text(c['order'], c['stmt'], c['proof'])
+    text = db_text(c['order'], c['stmt'], c['proof'], c.get('earlier'))
     try:
         labels, applied = decode_with_repo(text)
     except Exception as e:
@@ -180,7 +186,7 @@ def body(c, stats: Stats):
     nz = sum(1 for x in want if x == 0)
     backref = any(x > nlab for x in want) and nz
     stats.case(text, len(c['labels']) >= 2 or backref or len(c['used']) >= 2,
-               ['labels', 'nlabels-%d' % min(len(c['labels']), 5), 'mand-%d' % len(c['used'])] + (['has-Z'] if nz else []) + (['has-backref'] if backref else []),
+               ['labels', 'nlabels-%d' % min(len(c['labels']), 5), 'mand-%d' % len(c['used'])] + (['after-earlier-proofs'] if c.get('earlier') else []) + (['has-Z'] if nz else []) + (['has-backref'] if backref else []),
                {'statement': c['stmt'], 'float_order': c['order'], 'proof': c['proof'][:200], 'labels': table})
     if labels != table:
         raise Violation('label table %s, expected mandatory hypotheses in database order then listed labels: %s\n%s' % (labels, table, text), dict(c, text=text), 'label-table')
